@@ -24,6 +24,7 @@ open Model.C15
 #print axioms Model.traverseG_prefix
 #print axioms iter_range_gte_outside
 #print axioms iter_range_gt_outside
+#print axioms iter_range_gte_gt
 open Model.C13 in
 #print axioms shape_iterator
 open Model.C13 in
